@@ -332,8 +332,17 @@ namespace ST
     wchar_to_utf32(const wchar_t *wstr, size_t size,
                    utf_validation_t validation = ST_DEFAULT_VALIDATION)
     {
-        (void)validation;
-        return utf32_buffer(reinterpret_cast<const char32_t *>(wstr), size);
+        utf32_buffer result;
+        if (!wstr || size == 0)
+            return result;
+
+        result.allocate(size);
+        auto error = _ST_PRIVATE::utf32_convert_from_utf32(result.data(),
+                                reinterpret_cast<const char32_t *>(wstr),
+                                size, validation);
+        _ST_PRIVATE::raise_conversion_error(error);
+
+        return result;
     }
 
     ST_NODISCARD
@@ -487,8 +496,17 @@ namespace ST
     utf32_to_wchar(const char32_t *utf32, size_t size,
                    utf_validation_t validation = ST_DEFAULT_VALIDATION)
     {
-        (void)validation;
-        return wchar_buffer(reinterpret_cast<const wchar_t *>(utf32), size);
+        wchar_buffer result;
+        if (!utf32 || size == 0)
+            return result;
+
+        result.allocate(size);
+        auto error = _ST_PRIVATE::utf32_convert_from_utf32(
+                                reinterpret_cast<char32_t *>(result.data()),
+                                utf32, size, validation);
+        _ST_PRIVATE::raise_conversion_error(error);
+
+        return result;
     }
 
     ST_NODISCARD
